@@ -617,7 +617,7 @@ def validate(ctx, module, traces, cfg, what, describe, prepare=lambda t: t, max_
     pending = [n for n in range(len(traces)) if n not in accepted]
     reported = 0
     rounds = 0
-    while pending and rounds < 12:
+    while pending and rounds < 12 and reported < max_report:
         rounds += 1
         n = pending[0]
         far, violated, tail = ctx.diagnose_trace(module, prepared[n], cfg)
@@ -644,6 +644,7 @@ def validate(ctx, module, traces, cfg, what, describe, prepare=lambda t: t, max_
             pending = [m for j, m in enumerate(pending) if j not in acc2]
     if pending:
         ctx.cov["further_rejected_traces_not_diagnosed"] = ctx.cov.get("further_rejected_traces_not_diagnosed", 0) + len(pending)
+    if pending and not reported:
         ctx.violation(f"{what}:many-rejected", f"{what}: {len(pending)} further traces not accepted (not diagnosed one by one)",
                       {"module": module, "first": traces[pending[0]]})
     ctx.cov["traces_validated_against_impl"] += len(accepted)
@@ -697,15 +698,26 @@ def replay_file(ctx, path):
 
 
 def canary(ctx, module, traces, accepted, cfg, mutate, what, prepare=lambda t: t):
-    """Corrupt one accepted trace; TLC must reject it."""
+    """Corrupt one accepted trace; TLC must reject it.  (Own trace file per call: canaries run concurrently.)"""
+    import re
+    import uuid
+
     rnd = random.Random(ctx.seed)
     cands = [n for n in sorted(accepted) if mutate(copy.deepcopy(traces[n])) is not None]
     if not cands:
         raise core.MachineryFailure(f"{what}: no accepted trace can carry the canary")
     n = rnd.choice(cands)
     bad = mutate(copy.deepcopy(traces[n]))
-    acc, r = ctx.validate_traces(module, [prepare(bad)], cfg, name=f"canary[{what}]", count=False)
-    if acc:
+    tdir = ctx.tmp / "canaries"
+    tdir.mkdir(exist_ok=True)
+    tf = tdir / f"canary_{uuid.uuid4().hex}.json"
+    tf.write_text(json.dumps([prepare(bad)]))
+    r = core.run_tlc(module, cfg, ctx.tmp / "tlc", workers=1, timeout=600, env={"TRACE_FILE": str(tf)})
+    ctx.cov["models"].append({"model": f"canary[{what}] (trace validation)", "traces": 1, "distinct_states": r.distinct,
+                              "wall_s": round(r.wall, 2), "violated": r.violated})
+    if r.errors or (not r.finished and not r.violated):
+        raise core.MachineryFailure(f"canary[{what}]: TLC failed: {r.errors[:3]}\n{r.out[-2000:]}")
+    if any(re.match(r'<<"ACCEPT", \d+>>', line) for line in r.printed()):
         raise core.MachineryFailure(f"{what}: corrupted trace was accepted — the binding is vacuous")
     ctx.cov["canaries_rejected"] += 1
 
